@@ -273,6 +273,24 @@ def run(prog, check):
                         check.ob('C02.R3', '%s::lagged-source' % f.key, oksrc, '%s:%d' % (f.module.rel, a.lineno),
                                  'lag reads the series of its source variable' if oksrc else 'lag reads another series',
                                  'any model with a lag')
+    # the pairing (lag variable, source variable) and the exogenous paths the step reads are the parsed ones: no parser
+    # method re-assigns those partitions after the parse-time reset (reduction only moves endogenous equations)
+    Pcls = prog.classes.get('EquationParser')
+    if Pcls is not None:
+        for pf in Pcls.methods.values():
+            if pf.name == '__init__':
+                continue
+            for n in ast.walk(pf.node):
+                tg = n.targets[0] if isinstance(n, ast.Assign) else (n.target if isinstance(n, ast.AugAssign) else None)
+                if isinstance(tg, ast.Attribute) and isinstance(tg.value, ast.Name) and tg.value.id == 'self' and tg.attr in ('Lagged', 'Exogenous'):
+                    reset = isinstance(n, ast.Assign) and isinstance(n.value, ast.List) and not n.value.elts
+                    r3 += 1
+                    check.saw(pf)
+                    check.ob('C02.R3', '%s::pinned-partition-assigned(%s)' % (pf.key, tg.attr), reset, '%s:%d' % (pf.module.rel, n.lineno),
+                             'parse-time reset' if reset else
+                             'the %s partition is rewritten after parsing: the step then pins a lag to another source / another path '
+                             'than the submitted block says' % tg.attr,
+                             'an alias x = y with its own initial condition and a lag of x')
     # ---- R4 ----------------------------------------------------------------------------------------
     committed = set()
     for c in sw.commit_nodes:
